@@ -39,7 +39,7 @@ TABLE = {
 
 
 def run(ctx):
-    for fn in (r1_preprocessing, r2_consume_emit, r3_transitions, r3b_prompt_is_source, r4_grouping, r5_group_buffers, r6_line_counter):
+    for fn in (r1_preprocessing, r2_consume_emit, r3_transitions, r3b_prompt_is_source, r3c_blank_line_tests, r4_grouping, r5_group_buffers, r6_line_counter):
         ctx.rep.rule(fn, ctx)
 
 
@@ -409,6 +409,49 @@ def r3b_prompt_is_source(ctx, rule='C13.R3b'):
     rep.floor(rule, 'prompt recognition sites', len(seen_sites), 2)
 
 
+def r3c_blank_line_tests(ctx):
+    """a want ends at the first blank line and a blank line ends a source block: "blank" means empty after stripping.  The emptiness tests of the
+    labeller must look at the stripped line, not at the line cut at the remembered indentation (a spaces-only line longer than that indentation is not empty there)"""
+    rep = ctx.rep
+    f, g, rd, head, entry, cut, inner, val_of, truth, cur_defs = _label_machine(ctx)
+    line_var = head.ast.target.elts[-1].id if isinstance(head.ast.target, ast.Tuple) else head.ast.target.id
+
+    def subject_of(e):
+        """X for tests  len(X) == 0 / len(X) > 0 / not X / X == ''  """
+        if isinstance(e, ast.Compare) and len(e.ops) == 1 and isinstance(e.left, ast.Call) and is_name(e.left.func, 'len') and isinstance(e.comparators[0], ast.Constant) and e.comparators[0].value == 0:
+            return e.left.args[0]
+        if isinstance(e, ast.Compare) and len(e.ops) == 1 and isinstance(e.comparators[0], ast.Constant) and e.comparators[0].value == '':
+            return e.left
+        return None
+
+    def stripped(node, e, depth=0):
+        if isinstance(e, ast.Call) and isinstance(e.func, ast.Attribute) and e.func.attr == 'strip' and not e.args and is_name(e.func.value, line_var):
+            return True
+        if isinstance(e, ast.Name) and depth < 3:
+            ds = rd.at(node, e.id)
+            return bool(ds) and all(d.kind == 'assign' and isinstance(d.value, ast.AST) and stripped(d.node, d.value, depth + 1) for d in ds)
+        return False
+    n = 0
+    for t in g.nodes:
+        if t.kind != 'test' or t.dup or not graph.in_loop_body(t, head.ast) or any(graph.in_loop_body(t, ih.ast) for ih in inner):
+            continue
+        for e in ast.walk(t.ast):
+            x = subject_of(e) if isinstance(e, ast.Compare) else None
+            if x is None:
+                continue
+            # only tests that decide a label
+            decides = any(d.node in graph.reachable([b for b in t.nsucc()], efilter=graph.normal_only, stop=[head]) for d in cur_defs if d.node is not g.entry)
+            if not decides:
+                continue
+            n += 1
+            ok = stripped(t, x)
+            rep.ob('C13.R3c', ctx.loc(f, e), ctx.src(e), ok,
+                   'emptiness is tested on the stripped line' if ok else
+                   'the blank-line test looks at `%s`, which is not the stripped line: a line of blanks that is longer than the remembered indentation does not end the want / source block, '
+                   'and the prose after it is labelled want' % ctx.src(x), anchor=LABEL)
+    rep.floor('C13.R3c', 'blank-line tests in the labeller', n, 2)
+
+
 def r4_grouping(ctx):
     rep = ctx.rep
     f = ctx.func(PKG)
@@ -619,6 +662,7 @@ from ..selftest import fire, silent      # noqa: E402
 
 PA = 'xdoctest/parser.py'
 VARIANTS = [
+    fire('blank-test-on-cut-line', 'C13.R3c', (PA, "                if len(strip_line) == 0:\n                    curr_state = TEXT\n", "                if len(norm_line) == 0:\n                    curr_state = TEXT\n")),
     fire('prompt-after-want-tested-at-old-column', 'C13.R3b', (PA, "                elif _hasprefix(line.strip(), ('>>>',)):\n", "                elif _hasprefix(norm_line, ('>>>',)):\n")),
     fire('P4-drop-expandtabs', 'C13.R1', (PA, "        string = string.expandtabs()\n", "")),
     fire('deindent-wrong-bound', 'C13.R1', (PA, "            string = '\\n'.join([ln[min_indent:] for ln in string.splitlines()])\n", "            string = '\\n'.join([ln[min_indent + 1:] for ln in string.splitlines()])\n")),
